@@ -289,6 +289,7 @@ impl<E: FieldElement> OpFlags<E> {
             + degree5_op_flags[7] // JOIN
             + degree4_op_flags[6] // RESPAN
             + degree4_op_flags[7] // HALT
+            + degree4_op_flags[2] // SYSCALL
             + degree4_op_flags[3] // CALL
             + degree4_op_flags[4] * binary_not(frame.is_loop_end()); // END
 
